@@ -30,6 +30,7 @@ props! {
     c12 => "C12",
     c13 => "C13",
     c14 => "C14",
+    c15 => "C15",
     c16 => "C16",
     c17 => "C17",
     c18 => "C18",
